@@ -340,12 +340,14 @@ func genE2E0(r *vhlib.Rng, kind string) *E2E {
 		gs, _ := genForest(r, 1+r.Intn(3), 40, false)
 		sb := uint64(0x900000)
 		t1 := genTrace(r, 101, sb, traceOpt{n: 2, shape: 1, nsvc: 1, startMs: 5})
-		t2 := genTrace(r, 102, sb+16, traceOpt{n: 2, shape: 1, nsvc: 1, startMs: 6})
+		t2 := genTrace(r, 102, sb+16, traceOpt{n: 3, shape: 2, nsvc: 1, startMs: 6})
 		t1[0].setSvc(6)
 		t1[1].setSvc(7)
 		t2[0].setSvc(8)
 		t2[1].setSvc(9)
-		setParent(&t2[1], t1[1].S) // t2's child names a span of t1 as its parent
+		setParent(&t2[1], t1[1].S) // t2's children name a span of t1 as their parent: no edge X2->Y2 exists in any trace,
+		t2[2].setSvc(7)            // and the second child (service X2, like the foreign span) is an entry span of X2
+		setParent(&t2[2], t1[1].S)
 		gs = append(append(gs, t1...), t2...)
 		return finish(r, kind, gs, r.Intn(3))
 	case "multiroot": // known class: one trace with two roots that start at different times
@@ -844,7 +846,9 @@ func oracle(e *E2E, o *WorkerObs, sum *vhlib.Summary) {
 			if !depEqual(want, o.Dep) {
 				wj, _ := json.Marshal(want)
 				oj, _ := json.Marshal(o.Dep)
-				if total > 100 {
+				if total > 1000 {
+					fail("dep_graph_paging_over_1000_spans", fmt.Sprintf("%d spans in the window (read in pages of 1000): dependency graph %s, exact parent-child pairs %s", total, trunc(string(oj), 200), trunc(string(wj), 200)))
+				} else if total > 100 && e.Kind != "crossjoin" {
 					fail("dep_graph_first_page_only", fmt.Sprintf("%d spans in the window: dependency graph %s, exact parent-child pairs %s", total, trunc(string(oj), 200), trunc(string(wj), 200)))
 				} else if e.Kind == "crossjoin" {
 					fail("span_id_join_across_traces", fmt.Sprintf("dependency graph %s, pairs inside traces %s: a span naming a parent id that exists only in another trace is joined to it", trunc(string(oj), 200), trunc(string(wj), 200)))
@@ -859,11 +863,14 @@ func oracle(e *E2E, o *WorkerObs, sum *vhlib.Summary) {
 	if !hp("ProcessRedTracesIngest", o.RedErr) {
 		if o.RedErr != "" {
 			fail("red_error", o.RedErr)
-		} else if !e.dupIDs && e.Kind != "crossjoin" {
+		} else if !e.dupIDs {
 			want := sp.exactRed()
 			cls := func(c string) string {
 				if total > 1000 {
 					return "red_paging_over_1000_spans"
+				}
+				if e.Kind == "crossjoin" {
+					return "span_id_join_across_traces"
 				}
 				return c
 			}
@@ -1071,8 +1078,8 @@ func coqScenario(idx int, e *E2E, o *WorkerObs) (defs string, ncases int) {
 		checks = append(checks, fmt.Sprintf("existsb (fun rs => check_gantt (filter (of_trace (tid1 %d)) rs) %s) %s", tnum[t], obs, cands))
 		checks = append(checks, fmt.Sprintf("self_gantt (tid1 %d) %s", tnum[t], rname))
 	}
-	// dependency graph (one page suffices up to 100 spans)
-	if o.DepErr == "" && total <= 100 {
+	// dependency graph (the handler pages through the window; one page of 1000 holds everything here)
+	if o.DepErr == "" && total <= 1000 {
 		var kv []string
 		for a, mm := range o.Dep {
 			for b, v := range mm {
@@ -1080,7 +1087,7 @@ func coqScenario(idx int, e *E2E, o *WorkerObs) (defs string, ncases int) {
 			}
 		}
 		sort.Strings(kv)
-		checks = append(checks, fmt.Sprintf("check_dep DEFAULT_PAGE %s %s", cands, vhlib.CoqList(kv)))
+		checks = append(checks, fmt.Sprintf("check_dep %s %s", cands, vhlib.CoqList(kv)))
 	}
 	// RED (one page of 1000)
 	if o.RedErr == "" && total <= 1000 {
